@@ -231,7 +231,9 @@ func ruleC09_4(c *Ctx) {
 			okVals = okVals && mentionsCall(ev.Args[1], "Encode1", elem)
 		case 2:
 			need = "Is2"
-			okVals = okVals && mentionsCall(ev.Args[1], "Encode2", elem) && mentionsCall(ev.Args[2], "Encode2", elem)
+			// byte i of the entry is component i of its Encode2 result - each byte its own, in order
+			okVals = okVals && mentionsCall(ev.Args[1], "Encode2", elem) && mentionsCall(ev.Args[2], "Encode2", elem) &&
+				callComponent(ev.Args[1], "Encode2") == 0 && callComponent(ev.Args[2], "Encode2") == 1
 		case 3, 4:
 			if nBytes == 3 {
 				need = "Is3"
@@ -332,6 +334,29 @@ func stripElem(t *sym.Term) *sym.Term {
 }
 
 // mentionsCall: v is computed from a call of the named function on (a colour built from) elem.
+// callComponent: v is element k of the array a call of name returns (index(extract:0(call), k), index(call, k), with
+// conversions looked through): k, else -1.
+func callComponent(v *sym.Term, name string) int64 {
+	for v != nil && v.Op == "conv" && len(v.Args) == 1 {
+		v = v.Args[0]
+	}
+	if v == nil || v.Op != "index" || len(v.Args) != 2 {
+		return -1
+	}
+	k, ok := v.Args[1].Int64()
+	if !ok {
+		return -1
+	}
+	b := v.Args[0]
+	for b != nil && (b.Op == "extract" || strings.HasPrefix(b.Op, "extract")) && len(b.Args) >= 1 {
+		b = b.Args[0]
+	}
+	if b != nil && b.Op == "call" && b.Name == name {
+		return k
+	}
+	return -1
+}
+
 func mentionsCall(v *sym.Term, name string, elem *sym.Term) bool {
 	found := false
 	sym.Walk(v, func(x *sym.Term) bool {
